@@ -44,15 +44,15 @@ func opClass(st *hdr.Step) string {
 }
 
 type checker struct {
-	prop string
-	w    *hdr.World
-	st   *hdr.Step
-	hist []hdr.Op
-	vs   []mc.Violation
-	n    int
-	sc   *Scenario
-	op   *hdr.Op        // the operation about to be / just applied
-	pre  map[string]any // values captured by pre-oracles
+	prop     string
+	w        *hdr.World
+	st       *hdr.Step
+	hist     []hdr.Op
+	vs       []mc.Violation
+	n        int
+	sc       *Scenario
+	op       *hdr.Op        // the operation about to be / just applied
+	pre      map[string]any // values captured by pre-oracles
 	counters map[string]int
 }
 
@@ -107,6 +107,15 @@ func (c *checker) basics() bool {
 	if c.st != nil && c.st.Panic != "" {
 		c.fail("panic", opClass(c.st)+"|"+normalize(c.st.Panic), "operation "+c.st.Op.String()+" panicked: "+c.st.Panic)
 		return false
+	}
+	if c.st != nil && c.st.Err != "" {
+		switch c.st.Op.K {
+		case "clean", "cleand", "save", "reload", "reloadd":
+			// maintenance on storage that never fails has no reason to fail: every property that is
+			// stated over Clean / Save / Load presupposes that they go through
+			c.fail("maintenance-error", c.st.Op.K+"|"+normalize(c.st.Err), "operation "+c.st.Op.String()+" returned "+c.st.Err)
+			return false
+		}
 	}
 	return true
 }
